@@ -4,7 +4,8 @@
 Confirms a seeded change in a scratch worktree of /repo (never in /repo itself): on the clean copy the demo
 passes; with the patch the existing suite still gives 146 passed and the demo fails. Then runs the named checks
 (default: the property in meta.json) against the patched copy (VERIF_REPO) and records their verdict lines.
-With --keep the change is stored as /verif/seeded/<property>/<k>/ with a `confirmed` block in meta.json."""
+With --keep the change is stored as /verif/seeded/<property>/<k>/ with a `confirmed` block in meta.json.
+(VERIF_CHECK_HOME: run the checks from another checkout of /verif - a scratch git worktree - while /verif itself is busy.)"""
 import json, os, shutil, subprocess, sys, glob
 
 def sh(cmd, cwd=None, env=None, timeout=1800):
@@ -39,7 +40,7 @@ def main():
         verdicts = {}
         for c in checks:
             for sd in seeds:
-                rc, out = sh("./check %s" % c, cwd="/verif", env=dict(os.environ, VERIF_REPO=w, VERIF_SEED=sd, VERIF_EVIDENCE_DIR="/var/tmp/seedverify/evidence"), timeout=3000)
+                rc, out = sh("./check %s" % c, cwd=os.environ.get("VERIF_CHECK_HOME", "/verif"), env=dict(os.environ, VERIF_REPO=w, VERIF_SEED=sd, VERIF_EVIDENCE_DIR="/var/tmp/seedverify/evidence"), timeout=3000)
                 lines = [l[:260] for l in out.splitlines() if l.startswith(("VIOLATION", "KNOWN-FINDING")) or " tier=" in l or "BROKEN" in l]
                 verdicts["%s/seed%s" % (c, sd)] = dict(rc=rc, lines=lines[:6])
                 print("  check %s seed %s: rc=%d %s" % (c, sd, rc, " | ".join(lines[:3])[:400]))
